@@ -6,6 +6,7 @@ package main
 // obligations, each referring to a prefix of the assertions.
 
 import (
+	"os"
 	"fmt"
 	"go/ast"
 	"go/token"
@@ -71,6 +72,10 @@ type FuncGen struct {
 	returns    []retEdge
 	fspec      *frameSpec
 	pendingTrace *traceRec
+	pendingFnVal string
+	inlineDepth int
+	inlineSeq   int
+	closures    map[ssa.Value]*ssa.MakeClosure
 	lastAssert map[string]int
 	ownAllocs  []string
 	known      map[string]touched
@@ -668,7 +673,7 @@ func (fg *FuncGen) instrMods(in ssa.Instruction, ms *modSet) {
 			if fg.g.traced[cl.name] {
 				ms.ghosts["$seq"] = true
 				for k := range fg.ghostSort {
-					for _, p := range []string{"$calls:", "$callarg:", "$callseq:", "$callres:"} {
+					for _, p := range []string{"$calls:", "$callarg:", "$callseq:", "$callres:", "$callobs:", "$callfn:"} {
 						if k == p+cl.name || strings.HasPrefix(k, p+cl.name+":") {
 							ms.ghosts[k] = true
 						}
@@ -742,13 +747,23 @@ func (fg *FuncGen) run() {
 	}
 	fg.assumeStructInvsAtEntry()
 
+	fg.walk(fn, "")
+	fg.finishReturns()
+}
+
+// walk executes the blocks of fn (loops cut at their headers) starting in fg.cur / fg.reach.
+// prefix distinguishes the reachability constants of inlined closures.
+func (fg *FuncGen) walk(fn *ssa.Function, prefix string) {
+	e := fg.enc
+	entryReach := fg.reach
 	// topological order ignoring back edges
-	order := fg.topo()
-	for i, b := range order {
-		fg.blockOrder[b] = i
+	order := fg.topoOf(fn)
+	if prefix == "" {
+		for i, b := range order {
+			fg.blockOrder[b] = i
+		}
 	}
 	out := map[*ssa.BasicBlock]*State{}
-	reachOf := map[*ssa.BasicBlock]string{}
 	edgeCond := map[[2]*ssa.BasicBlock]string{}
 
 	for _, b := range order {
@@ -757,7 +772,7 @@ func (fg *FuncGen) run() {
 		var reach string
 		if b == fn.Blocks[0] {
 			st = fg.cur
-			reach = "true"
+			reach = entryReach
 		} else {
 			var edges []inEdge
 			for _, p := range b.Preds {
@@ -778,7 +793,7 @@ func (fg *FuncGen) run() {
 			for _, ed := range edges {
 				conds = append(conds, ed.cond)
 			}
-			rname := e.declConst(fmt.Sprintf("reach_%d", b.Index), "Bool")
+			rname := e.declConst(fmt.Sprintf("reach_%s%d", prefix, b.Index), "Bool")
 			fg.assume(fmt.Sprintf("(= %s %s)", rname, or(conds...)))
 			reach = rname
 			fg.reach = reach
@@ -807,7 +822,6 @@ func (fg *FuncGen) run() {
 		}
 		fg.cur = st
 		fg.reach = reach
-		reachOf[b] = reach
 		if li := fg.loops[b]; li != nil {
 			fg.loopHead(li)
 		}
@@ -837,7 +851,89 @@ func (fg *FuncGen) run() {
 			}
 		}
 	}
-	fg.finishReturns()
+}
+
+// inlineClosure symbolically executes the body of an anonymous function at its call site
+// (used for `defer func() {...}()` and direct calls of function literals).  Only loop-free,
+// defer-free closures are inlined; anything else is treated as an unknown call.
+func (fg *FuncGen) inlineClosure(mc *ssa.MakeClosure, args []Val, guard string) (Val, bool) {
+	fn, ok := mc.Fn.(*ssa.Function)
+	if !ok || len(fn.Blocks) == 0 || fg.inlineDepth > 2 {
+		return Val{}, false
+	}
+	for _, b := range fn.Blocks {
+		for _, s := range b.Succs {
+			if s.Dominates(b) {
+				return Val{}, false // loop
+			}
+		}
+		for _, in := range b.Instrs {
+			switch in.(type) {
+			case *ssa.Defer, *ssa.Go, *ssa.Select:
+				return Val{}, false
+			}
+		}
+	}
+	for i, fv := range fn.FreeVars {
+		fg.vals[fv] = fg.val(mc.Bindings[i])
+	}
+	for i, p := range fn.Params {
+		if i < len(args) {
+			fg.vals[p] = args[i]
+		}
+	}
+	if os.Getenv("PLVC_DEBUG") != "" {
+		fmt.Fprintf(os.Stderr, "inline %s depth %d in block %d of %s\n", fn.Name(), fg.inlineDepth, fg.block.Index, fg.block.Parent().Name())
+	}
+	fg.inlineDepth++
+	fg.inlineSeq++
+	saveRet, saveReach, saveBlock, savePre := fg.returns, fg.reach, fg.block, fg.cur.clone()
+	fg.returns = nil
+	if guard != "true" {
+		fg.reach = fg.namedBool("dg", and(fg.reach, guard))
+	}
+	fg.walk(fn, fmt.Sprintf("c%d_", fg.inlineSeq))
+	rets := fg.returns
+	fg.returns = saveRet
+	fg.inlineDepth--
+	fg.block = saveBlock
+	var edges []inEdge
+	for _, r := range rets {
+		edges = append(edges, inEdge{cond: r.cond, st: r.st})
+	}
+	if guard != "true" {
+		edges = append(edges, inEdge{cond: fg.namedBool("ndg", and(saveReach, not(guard))), st: savePre})
+	}
+	if len(edges) == 0 {
+		fg.cur = savePre
+		fg.reach = saveReach
+		return Val{Typ: fn.Signature.Results()}, true
+	}
+	fg.reach = saveReach
+	fg.cur = fg.merge(edges)
+	var rv Val
+	rt := fn.Signature.Results()
+	if rt.Len() == 0 {
+		rv = Val{Typ: rt}
+	} else {
+		var res []Val
+		for i := 0; i < rt.Len(); i++ {
+			v := fg.freshValNoFacts(fmt.Sprintf("cret%d", i), rt.At(i).Type())
+			for _, r := range rets {
+				if i < len(r.results) {
+					fg.assume(implies(r.cond, fmt.Sprintf("(= %s %s)", v.T, r.results[i].T)))
+				}
+			}
+			res = append(res, v)
+		}
+		if rt.Len() == 1 {
+			rv = res[0]
+		} else {
+			rv = Val{Typ: rt, Tup: res}
+		}
+	}
+	fg.note("closure %s executed inline at its call site", fn.Name())
+	return rv, true
 }
 
 func (fg *FuncGen) namedBool(prefix, term string) string {
@@ -854,8 +950,9 @@ func (fg *FuncGen) freshValNoFacts(prefix string, t types.Type) Val {
 	return Val{T: fg.enc.declConst(name, fg.enc.sortOf(t)), Typ: t}
 }
 
-func (fg *FuncGen) topo() []*ssa.BasicBlock {
-	fn := fg.fn
+func (fg *FuncGen) topo() []*ssa.BasicBlock { return fg.topoOf(fg.fn) }
+
+func (fg *FuncGen) topoOf(fn *ssa.Function) []*ssa.BasicBlock {
 	seen := map[*ssa.BasicBlock]bool{}
 	var post []*ssa.BasicBlock
 	var dfs func(b *ssa.BasicBlock)
@@ -1088,6 +1185,9 @@ func (fg *FuncGen) preregisterTraces() {
 			fg.ghostSort["$calls:"+cl.name] = "Int"
 			fg.ghostInits["$calls:"+cl.name] = "0"
 			fg.ghostSort["$callseq:"+cl.name] = "(Array Int Int)"
+			if !c.IsInvoke() && c.StaticCallee() == nil {
+				fg.ghostSort["$callfn:"+cl.name] = "(Array Int Int)"
+			}
 			fg.ghostInits["$callseq:"+cl.name] = "((as const (Array Int Int)) 0)"
 			var ats []types.Type
 			if c.IsInvoke() || c.StaticCallee() == nil {
@@ -1098,6 +1198,17 @@ func (fg *FuncGen) preregisterTraces() {
 			}
 			for j, t := range ats {
 				fg.ghostSort[fmt.Sprintf("$callarg:%s:%d", cl.name, j)] = fmt.Sprintf("(Array Int %s)", fg.enc.sortOf(t))
+			}
+			if cl.ct != nil {
+				for _, ob := range cl.ct.Observes {
+					pk := fg.fn.Pkg.Pkg
+					if p := fg.g.pkgByPath(ob.Pkg); p != nil {
+						pk = p
+					}
+					if t := fg.g.resolveType(ob.Type, pk); t != nil {
+						fg.ghostSort[fmt.Sprintf("$callobs:%s:%s", cl.name, ob.Name)] = fmt.Sprintf("(Array Int %s)", fg.enc.sortOf(t))
+					}
+				}
 			}
 			rs := cl.sig.Results()
 			for i := 0; i < rs.Len(); i++ {
@@ -1128,6 +1239,9 @@ func (fg *FuncGen) checkedClauses() {
 			env := fg.implEnv(fg.entry, fg.entry, names)
 			env.results = []Val{{T: "0", Typ: fg.fn.Signature.Results().At(0).Type()}}
 			for _, en := range chk.Ensures {
+				if fg.g.mentionsTrace(en.Expr) {
+					continue
+				}
 				fg.clausePkg(env, en)
 				ante = append(ante, fg.trBool(en.Expr, env))
 			}
